@@ -57,6 +57,10 @@ TABLE_PROGRAMS = [
     "p(N0) :- q(N0), N0 = 1..2.", "p(1..2, N0) :- q(N0).", "p(X) :- q(X), X != a.", "p(2/0).", "p(1/(X-1)) :- q(X).",
     "p(X) :- q(X), 1 = X \\ 2.", "{p(1..2)}.", "{p(X+1)} :- q(X).", "p(X+(1..2)) :- q(X).", "p(X) :- q((X+1)*2).",
     "p(X) :- X = -1..1, not q(X).", "p(5 \\ -2).", "p(-3/2).", "p(-3 \\ 2).",
+    # intervals with extreme or symbolic bounds; rule variables named like the fresh variables of the natural translation
+    "p(#inf..3).", "q(X) :- p(X), X = 1..#sup.", "p((1+#inf)..3).", "p(a..3).", "p(1..a).", "p(-(#sup)..1).", "{p(#inf..1)}.", "p(X) :- q(X), X = #inf..#sup.",
+    "p(1..N0) :- q(N0).", "p(N1..3, 1..5) :- q(N1).", "{p(1..N0)} :- q(N0).", "p(N0..N0) :- q(N0).", "p(1..2, N0..N1) :- q(N0), q(N1).", "p(N0, 1..N0) :- q(N0).",
+    "p(1..2, 3..4, N1) :- q(N1).", "{p(N0_0..N0)} :- q(N0), q(N0_0).", "p(1..X) :- q(X), not p(X..2).", "p(X..Y) :- q(X), q(Y), X < Y.",
 ]
 
 
